@@ -62,7 +62,8 @@ def f_placement(case):
     name, N, q = case['gate'], case['N'], case['qubits']
     lab = getattr(np, case['labels']) if case.get('labels') else int      # qubit labels as Python ints or NumPy integer scalars (elements of an index array)
     ql = [lab(x) for x in q]
-    g = getattr(pc, name)(*ql) if name != 'C' else pc.C(case['num'], *ql)
+    mk = lambda: getattr(pc, name)(*ql) if name != 'C' else pc.C((int, np.int64, np.uint8, float, int)[(case['num'] + q[0]) % 5](case['num']), *ql)   # C(n): n in several numeric forms
+    g = mk()
     if name == 'CNOT':
         c, t = q
         exp = _stmt_ref('CNOT').embed([c, t], N)       # rows order (X_c,Z_c,X_t,Z_t) -> wires (c,t)
@@ -112,6 +113,13 @@ def f_placement(case):
         objb = B.np_list(L, K)
         holder.backward(objb)
         C.expect_list(B.read_list(objb), exp.inverse().apply(L, K), '%s%s on %d qubits through a %s, backward' % (name, tuple(q), N, case['via']), 'action-backward')
+    # the caller owns the gate it got: after it has edited that gate's table in place, the constructor must still hand out the textbook gate
+    if g.forward_map is not None:
+        g.forward_map.ps[:] = (g.forward_map.ps + 2) % 4
+        g.forward_map.gs[:] = g.forward_map.gs[::-1].copy()
+        obj4 = B.np_list(L, K)
+        mk().forward(obj4)
+        C.expect_list(B.read_list(obj4), (el, ek), '%s%s constructed again after the first gate object was edited in place' % (name, tuple(q)), 'constructor-second-call')
     changed = ((el != L).any(-1) | (ek != K))
     # explicit statement clauses
     if name == 'CNOT':
@@ -229,3 +237,9 @@ FACETS = [
 from checks import c09 as _c09
 FACETS.append(Facet('np/placements-large-registers', _c09.f_big_circuit, strategy=lambda t: _c09.st_big_circuit('np', ['H', 'S', 'X', 'Y', 'Z', 'C', 'CNOT']),
                     examples={'quick': 400, 'thorough': 20000}, shards={'quick': 2, 'thorough': 8}))
+
+
+# ---- named gates through build histories (take / compile / compile-layers / copy interleaved, then recompiled): the compiled circuit must
+# contain every named gate that was taken, wherever it landed
+FACETS.append(Facet('np/placements-build-histories', _c09.f_history, strategy=lambda t: _c09.st_history('np', 4, ['H', 'S', 'X', 'Y', 'Z', 'C', 'CNOT']),
+                    examples={'quick': 800, 'thorough': 30000}, shards={'quick': 2, 'thorough': 8}))
